@@ -36,6 +36,8 @@ type C14Obs struct {
 	Tag            string `json:"tag"`
 	H2PErr         string `json:"h2pErr"`
 	P2HErr         string `json:"p2hErr"`
+	H2PAuth        string `json:"h2pAuth,omitempty"` // (gRPC) how the brokered connections are secured as their dialling side sees it: tls | none
+	P2HAuth        string `json:"p2hAuth,omitempty"`
 	BigErr         string `json:"bigErr"`
 	BigLen         int    `json:"bigLen"`
 	BigBrokeredErr string `json:"bigBrokeredErr,omitempty"` // (gRPC) 5 MiB responses on brokered connections, both directions
